@@ -121,6 +121,10 @@ prop("C03", [
     # the upstream reply as decoded: header bits, and the response code's upper bits from the first version-0 OPT record
     dict(engine="verus", unit="dnsparse", fns=["PktParser::get_dns"]),
     dict(engine="verus", unit="outq", fns=["create_outquery"]),
+    # "the upstream reply" is the reply to THIS question: a reply served from the cache was obtained for a query with the same
+    # name, type, DO and CD bits in class IN (other classes never use the map), aged and otherwise unchanged
+    dict(engine="verus", unit="cache", fns=["CacheHandler::handle_query", "CacheHandler::get_entry", "clone_with_ttl_decrement_out_reply", "clone_out_reply"]),
+    dict(engine="verus", unit="dnsttl"),
 ], explanation="create_in_reply: the client reply is the upstream reply under the client's id and question, for any number of records; "
                "push_rr: every name is written with the base offset of the buffer it is written into (emission-point precondition of the compression dictionary)")
 
